@@ -1,2 +1,15 @@
 #!/bin/sh
+# Builds the framework from files on disk only (offline): translator, harness (from /repo's
+# working tree, via overlay), regenerated Lean tables, the whole Lean library (all proofs) and
+# the model driver.  Checks rebuild what depends on /repo themselves; this only warms the caches.
+set -u
+cd "$(dirname "$0")"
+export GOFLAGS=-mod=mod GOPROXY=off
+unset GOSUMDB || true
+mkdir -p build evidence replays lean/Emerge/Gen
+python3 build_overlay.py >/dev/null
+(cd tools/extract && GOTOOLCHAIN=local go build -o ../../build/extract .) || { echo "setup: translator build failed"; exit 1; }
+build/extract /repo lean/Emerge/Gen || echo "setup: extraction reported failures (checks will report them)"
+(cd /repo && go build -tags verif -overlay /verif/build/overlay.json -o /verif/build/harness ./internal/zzverif/harness) || echo "setup: harness build failed (checks will report it)"
+(cd lean && lake build 2>&1 | tail -5) || echo "setup: lake build reported failures (checks will report them)"
 exit 0
